@@ -18,6 +18,9 @@
     {"op":"prefix","a":report,"b":report} → {"prefix": prefixB a b}
     {"op":"fs","mode":"atomic"|"inplace","prev":null|[…],"saves":[[chunk…]…],"cut":n}
       → {"file": visible after `cut` operations, "tmp": …, "nops": total number of operations}
+    any request + "runs":[{"cli":T,"env":T,"writes":bool}…]   T = null | "" | {"other":k}   (`Model/RunStart.lean`, `Model/RunSeq.lean`;
+      {"op":"rundir"} = nothing else)
+      → … + {"starts":[null (the run gets no directory: no session) | {"dir":"ext"|"fs","holds":directory holds report files}…]}
 
   Run: `lake env lean --run drivers/C10.lean`
 -/
@@ -28,6 +31,7 @@ import LccModel.Model.SavingActs
 import LccModel.Model.Grammar
 import LccModel.Model.Store
 import LccModel.Model.Junit
+import LccModel.Model.RunStart
 open Lean LccModel LccModel.Proto LccModel.ProtoReport LccModel.Report LccModel.Writer LccModel.Saving
 
 def decStrategy (j : Json) : Except String Strategy := do
@@ -220,6 +224,37 @@ def handle (j : Json) : Except String Json := do
     let ops := saves.flatMap save
     let s := fsRun { file := prev, tmp := none } (ops.take cut)
     pure (Json.mkObj [("file", optText (visible s)), ("tmp", optText s.tmp), ("nops", Json.num ops.length)])
+  | "rundir" => pure (Json.mkObj [])
   | _ => throw s!"unknown op {op}"
 
-def main : IO Unit := loop (wrap handle)
+/-- the runs of a history, one after the other on the run-sequence model: what each finds when it starts -/
+def startsOf (j : Json) : Except String Json := do
+  let parseT (j : Json) : Except String (Option RunSeq.Target) :=
+    match j with
+    | .null => pure none
+    | .str "" => pure (some .empty)
+    | j => do pure (some (.other (← getNat j "other")))
+  let fieldOr (j : Json) (k : String) : Json := match j.getObjVal? k with | .ok v => v | .error _ => .null
+  let runs ← (← getArr j "runs").toList.mapM (fun r => do
+    pure ({ cli := ← parseT (fieldOr r "cli"), env := ← parseT (fieldOr r "env"), impl := .default,
+            writes := ← getBool r "writes", fate := .completes } : RunSeq.Cfg))
+  let rec go (s : RunSeq.St) (cs : List RunSeq.Cfg) (acc : Array Json) : Array Json :=
+    match cs with
+    | [] => acc
+    | c :: rest =>
+      let a := match RunStart.startOf c s with
+        | none => Json.null
+        | some (d, holds) => Json.mkObj [("dir", Json.str (match d with | .ext _ => "ext" | .fs _ => "fs")), ("holds", Json.bool holds)]
+      match RunSeq.run c s with
+      | none => acc.push (Json.str "stuck")
+      | some s' => go s' rest (acc.push a)
+  pure (Json.arr (go RunSeq.init runs #[]))
+
+/-- any request may carry "runs" (the history of `lcc run`s the observed run is the last of): the answer then has "starts" -/
+def handleAll (j : Json) : Except String Json := do
+  let a ← handle j
+  match j.getObjVal? "runs" with
+  | .ok _ => pure (a.setObjVal! "starts" (← startsOf j))
+  | .error _ => pure a
+
+def main : IO Unit := loop (wrap handleAll)
